@@ -66,6 +66,7 @@ func ParseEther(s string) (*big.Int, error) {
 	mul := new(big.Rat)
 	switch strings.ToLower(strings.TrimSpace(unit)) {
 	case "wei":
+		mul.SetInt64(1)
 	case "kwei", "babbage":
 		mul.SetInt64(1e3)
 	case "mwei", "lovelace":
